@@ -63,7 +63,6 @@ type Ev struct {
 type ItemOut struct {
 	UID  string
 	Full string // JSON of (resource, scope, [metric,] item) in isolation
-	Alt  string // metrics only: same with metric Metadata stripped
 }
 
 // Run is the state of one scenario execution.
@@ -202,9 +201,7 @@ func (s *sink) ConsumeLogs(ctx context.Context, ld plog.Logs) error {
 
 func (s *sink) ConsumeMetrics(ctx context.Context, md pmetric.Metrics) error {
 	var items []ItemOut
-	forEachPoint(md, false, func(u, full string) { items = append(items, ItemOut{UID: u, Full: full}) })
-	i := 0
-	forEachPoint(md, true, func(u, full string) { items[i].Alt = full; i++ })
+	forEachPoint(md, func(u, full string) { items = append(items, ItemOut{UID: u, Full: full}) })
 	return s.export(ctx, items)
 }
 
@@ -468,6 +465,11 @@ func (r *Run) Exec() (stuck []string, err error) {
 					r.pendingEnqueue.Add(-1)
 				}
 				r.add(Ev{Kind: "ret", Req: c.spec.ID(), Err: e, ErrPermanent: e != nil && consumererror.IsPermanent(e)})
+				if sc.EndSpans && c.span != nil && c.spec.CtxGroup < 0 {
+					// logged BEFORE End(): an export that began before this event added its link back to a live span
+					r.add(Ev{Kind: "span_ending", Req: c.spec.ID()})
+					c.span.End()
+				}
 				r.poke()
 				if dcancel != nil {
 					dcancel()
